@@ -7,7 +7,8 @@ From PyOrb.lib Require Import PyReal SgpOutcome.
 From PyOrb.spec Require Import Spec_SGP4.
 From PyOrb.gen Require Import Gen_astronomy Gen_orbital Gen_sgp4 Gen_sgp4_compose.
 From PyOrb.proofs Require Import P_Kepler P_Newton P_Sgp4Init P_Sgp4Prop P_Sgp4Exits P_Sgp4SmallE P_Sgp4Lip P_Sgp4Accuracy
-                                 P_Sgp4Newton P_Sgp4EndToEnd.
+                                 P_Sgp4Newton P_Sgp4EndToEnd P_Sgp4Answered P_AccuracyExample P_AnsweredExample.
+From PyOrb.props Require C01.
 Open Scope R_scope.
 
 (* second-order Taylor remainder of the Kepler function *)
@@ -104,3 +105,55 @@ Example C01_returned_at_exit_2 : forall e0 i r w m n b ts,
   (gen_nn1_x2_radius e0 i r w m n b ts, gen_nn1_x2_theta e0 i r w m n b ts, gen_nn1_x2_eqinc e0 i r w m n b ts,
    gen_nn1_x2_ascn e0 i r w m n b ts, gen_nn1_x2_rdotk e0 i r w m n b ts, gen_nn1_x2_rfdotk e0 i r w m n b ts).
 Proof. reflexivity. Qed.
+
+(* A HEALTHY ORBIT IS ANSWERED: decay guards at the requested time, eL^2 <= 4/25, and osculating perigee a (1 - eL) at least
+   1.005 earth radii imply that the regenerated propagation returns a state (no error exit, the loop converged by its sixth
+   test, rk >= 1 at the exit) -- the hypothesis "outcome = PropOk j" of the theorems above follows from the elements *)
+Theorem C01_short_period_radius : forall el t e, 1 <= a el t -> eL2 el t e <= 4 / 25 ->
+  1005 / 1000 <= a el t * (1 - sqrt (eL2 el t e)) -> forall Ew, 1 <= rk el t e Ew.
+Proof. exact rk_at_least_one. Qed.
+Print Assumptions C01_short_period_radius.
+
+Theorem C01_answered_when_healthy : forall e0 i r w m n b ts,
+  gen_init_outcome e0 i r w m n b = InitMode NearNorm 1 ->
+  let El := E e0 i r w m n b in let T := mkT false ts in let ec := ecl e0 i r w m n b ts in
+  - (1 / 1000) <= e_unclamped El T -> eL2 El T ec <= 4 / 25 -> 1005 / 1000 <= a El T * (1 - sqrt (eL2 El T ec)) ->
+  exists j, (j <= 5)%nat /\ gen_nn1_prop_outcome e0 i r w m n b ts = PropOk j.
+Proof. exact answered_when_healthy. Qed.
+Print Assumptions C01_answered_when_healthy.
+
+Theorem C01_answered_when_healthy_small_e : forall e0 i r w m n b ts,
+  gen_init_outcome e0 i r w m n b = InitMode NearNorm 3 ->
+  let El := E e0 i r w m n b in let T := mkT true ts in let ec := ecl3 e0 i r w m n b ts in
+  - (1 / 1000) <= e_unclamped El T -> eL2 El T ec <= 4 / 25 -> 1005 / 1000 <= a El T * (1 - sqrt (eL2 El T ec)) ->
+  exists j, (j <= 5)%nat /\ gen_nn3_prop_outcome e0 i r w m n b ts = PropOk j.
+Proof. exact answered_when_healthy3. Qed.
+Print Assumptions C01_answered_when_healthy_small_e.
+
+(* non-vacuity of everything above: the ISS element set of the test-suite, propagated to its epoch, is on leaf 1
+   (C01_iss_on_leaf1), healthy (interval arithmetic), hence answered, and a <= 2: every hypothesis of
+   C01_answered_position_accuracy is met by a concrete input *)
+Example C01_iss_answered :
+  let e0 := 6703 / 10000000 in let i := 516416 / 10000 in let r := 2474627 / 10000 in let w := 1305360 / 10000 in
+  let m := 3250288 / 10000 in let n := 1572125391 / 100000000 in let b := - (11606 / 1000000000) in
+  gen_init_outcome e0 i r w m n b = InitMode NearNorm 1 /\
+  (exists j, (j <= 5)%nat /\ gen_nn1_prop_outcome e0 i r w m n b 0 = PropOk j) /\
+  a (E e0 i r w m n b) (mkT false 0) <= 2 /\ eL2 (E e0 i r w m n b) (mkT false 0) (ecl e0 i r w m n b 0) <= 4 / 25.
+Proof.
+  cbv zeta. pose proof C01.C01_iss_on_leaf1 as Hleaf.
+  assert (Hec : ecl (6703 / 10000000) (516416 / 10000) (2474627 / 10000) (1305360 / 10000) (3250288 / 10000)
+                    (1572125391 / 100000000) (- (11606 / 1000000000)) 0 = e_unclamped ISS T0).
+  { unfold ecl.
+    change (E (6703 / 10000000) (516416 / 10000) (2474627 / 10000) (1305360 / 10000) (3250288 / 10000) (1572125391 / 100000000) (- (11606 / 1000000000))) with ISS.
+    change (mkT false 0) with T0. apply clamp_e_id. pose proof iss_e. lra. }
+  split; [exact Hleaf|]. split.
+  - apply (answered_when_healthy _ _ _ _ _ _ _ 0 Hleaf); rewrite ?Hec;
+      change (E (6703 / 10000000) (516416 / 10000) (2474627 / 10000) (1305360 / 10000) (3250288 / 10000) (1572125391 / 100000000) (- (11606 / 1000000000))) with ISS;
+      change (mkT false 0) with T0.
+    + pose proof iss_e. lra.
+    + exact iss_eL2.
+    + exact iss_perigee.
+  - rewrite Hec.
+    change (E (6703 / 10000000) (516416 / 10000) (2474627 / 10000) (1305360 / 10000) (3250288 / 10000) (1572125391 / 100000000) (- (11606 / 1000000000))) with ISS.
+    change (mkT false 0) with T0. pose proof iss_a. split; [lra|exact iss_eL2].
+Qed.
